@@ -7,63 +7,11 @@
 //! env:   VERIF_SEED (default 0), VERIF_TIER (overrides --tier)
 //! exit:  0 held / 1 violation (VIOLATION line) / 2 could not decide
 
-mod clidrv;
-mod common;
-mod dhw;
-mod dom;
-mod engine;
-mod fgen;
-mod flat;
-mod layout;
-mod gen;
-mod model;
-mod props;
-mod tol;
-mod xform;
-mod xmlcheck;
-
-use engine::{replay_cmd, run_property, Outcome, Prop, Tier};
 use std::path::Path;
 
-macro_rules! registry {
-    ($($id:literal => $ty:ty),* $(,)?) => {
-        const IDS: &[&str] = &[$($id),*];
-        fn run(id: &str, tier: Tier, seed: u64) -> Option<Outcome> {
-            Some(match id {
-                $($id => run_property::<$ty>(tier, seed),)*
-                _ => return None,
-            })
-        }
-        fn replay(id: &str, path: &Path) -> Option<Outcome> {
-            Some(match id {
-                $($id => replay_cmd::<$ty>(path),)*
-                _ => return None,
-            })
-        }
-    };
-}
-
-registry! {
-    "C01" => props::c01::C01,
-    "C02" => props::c02::C02,
-    "C03" => props::c03::C03,
-    "C04" => props::c04::C04,
-    "C05" => props::c05::C05,
-    "C06" => props::c06::C06,
-    "C07" => props::c07::C07,
-    "C08" => props::c08::C08,
-    "C09" => props::c09::C09,
-    "C10" => props::c10::C10,
-    "C11" => props::c11::C11,
-    "C12" => props::c12::C12,
-    "C13" => props::c13::C13,
-    "C14" => props::c14::C14,
-    "C15" => props::c15::C15,
-    "C16" => props::c16::C16,
-    "C17" => props::c17::C17,
-    "C18" => props::c18::C18,
-    "C19" => props::c19::C19,
-}
+use vcheck::engine::{Prop, Tier};
+use vcheck::registry::{replay, run, IDS};
+use vcheck::xmlcheck;
 
 fn main() {
     let args: Vec<String> = std::env::args().skip(1).collect();
